@@ -208,9 +208,9 @@ def call_function(I, fn, args, kwargs):
     top = I.contract
     if top is not None and key in top.site_requires and I.depth == 1 and I.cur_frame is not None:
         I.prove_clauses(top.site_requires[key], I.cur_frame, f"{top.name}.at-call[{fn.__qualname__}]")
-    c = I.reg.get(key)
-    if c is not None and not c.verify_only:
-        I.assumed_calls.add(key)
+    c = I.reg.get_for_call(I, key, fn, args, kwargs)
+    if c is not None:
+        I.assumed_calls.add(c.name)
         return I.reg.apply_contract(I, c, fn, args, kwargs)
     mod = fn.__module__ or ""
     if mod.startswith("dns.") or key in I.reg.inline:
